@@ -9,6 +9,7 @@ use vcore::tschema::{MsgType, SDoc};
 use vrt::gen::Entry;
 
 pub mod more;
+pub mod pcheck;
 pub mod rt;
 pub mod util;
 
@@ -134,3 +135,5 @@ pub fn main(table: Vec<Entry>) -> i32 {
         }
     }
 }
+
+pub use pcheck::pmain;
